@@ -38,7 +38,7 @@ def forbidden_scan():
 def proof_gate(prop):
     """(obligations, discharged, problems, theorem names)"""
     problems = []
-    ok, out = common.build_coq(["Properties/%s.vo" % prop, "Pins/Pins.vo"])
+    ok, out = common.build_coq(["Properties/%s.vo" % prop, "Pins/Pins_%s.vo" % prop])
     if not ok:
         problems.append("the Coq development does not build:\n" + out[-3000:])
         return 0, 0, problems, []
@@ -157,7 +157,7 @@ def check(prop, tier, seed):
     lines_out = []
 
     # builds: model runner and harness (against /repo's working tree)
-    ok, out = common.build_coq()
+    ok, out = common.build_coq(["Model/Prog.vo"])   # the model runner needs the model only, not the proofs
     okd, outd = common.build_driver() if ok else (False, out)
     okh, outh = common.build_harness()
 
@@ -167,7 +167,7 @@ def check(prop, tier, seed):
 
     coverage = {
         "obligations": obligations, "discharged": discharged,
-        "checker_cmd": "cd coq && make Properties/%s.vo Pins/Pins.vo && coqc -Q . BBF Properties/%s.v  (Print Assumptions under every theorem)" % (prop, prop),
+        "checker_cmd": "cd coq && make Properties/%s.vo Pins/Pins_%s.vo && coqc -Q . BBF Properties/%s.v  (Print Assumptions under every theorem)" % (prop, prop, prop),
         "trusted_base": TRUSTED_BASE, "theorems": theorems,
         "rule": gen["rule"], "exhaustive": bool(gen.get("exhaustive")),
         "input_distribution": gen.get("dist", {}),
@@ -225,7 +225,7 @@ def check(prop, tier, seed):
     distinct = set(c["key"] for c in cases if c.get("nontrivial"))
     coverage.update({
         "evaluations": len(cases), "distinct_nontrivial": len(distinct),
-        "samples": [c["lines"] for c in cases[:: max(1, len(cases) // 4)][:4]],
+        "samples": [c["lines"][:10] for c in cases[:: max(1, len(cases) // 4)][:4]],
         "tierA_mismatches": len(tierA), "tierB_failures": len(tierB),
         "known_findings_hit": dict(known_hit), "observation_lines": len(impl),
     })
